@@ -112,7 +112,7 @@ var reNumList = regexp.MustCompile(`(?i)\bIN \(\s*[0-9T]+(\s*,\s*[0-9T]+)+\s*\)`
 
 var (
 	rePortion = regexp.MustCompile(`cityHash64\(trace_id\) % [0-9]+\)+ == \(+[0-9]+\)+`)
-	reIDs     = regexp.MustCompile(`(?i)\(*trace_id\)* IN \((\s*unhex\('[0-9a-fA-F]*'\)\s*,?)*\)`)
+	reIDs     = regexp.MustCompile(`(?i)\(*trace_id\)* IN \((\s*unhex\('[0-9a-fA-FT]*'\)\s*,?)*\)`)
 	reOrIDs   = regexp.MustCompile(`(?i)\s*(or|and)\s*\(*IDS\)*`)
 )
 
@@ -120,6 +120,8 @@ func canonPortion(q string) string {
 	q = rePortion.ReplaceAllString(q, "PORTION")
 	q = reIDs.ReplaceAllString(q, "IDS")
 	q = reOrIDs.ReplaceAllString(q, "")
+	// the clause that excludes the traces found so far comes with its own brackets: compare without them
+	q = strings.NewReplacer("(", "", ")", "").Replace(q)
 	return q
 }
 
